@@ -30,9 +30,68 @@ def atom_hn(e):
     return None
 
 
+def _view_extents_by_type(ctx):
+    """The carve-up no longer lives in `fieds_from_ptr`: the same comparison by role.  The five regions of the slab have
+    five different element types, so `Layout::array::<T>(len)` in the layout constructor and
+    `slice_from_raw_parts_mut::<T>(ptr, len)` wherever the views are made are matched by T; both lengths are read as
+    polynomials over the haystack length and the needle length (whatever carries them: parameters, fields of a
+    dimensions struct, fields of the layout)."""
+    facts = ctx.facts
+    new = get_fn(facts, M, LAYOUT_NEW)
+
+    def atom(e):
+        e = strip_casts(e)
+        nm = None
+        if e[0] == "arg":
+            nm = e[2]
+        elif e[0] == "field":
+            nm = e[2]
+        elif e[0] in ("deref", "ref"):
+            return atom(e[1])
+        if nm in ("haystack_len", "haystack"):
+            return "h"
+        if nm in ("needle_len", "needle"):
+            return "n"
+        return None
+
+    def norm_ty(t):
+        return str(t).strip("[]").replace("/#0", "")
+    lay = {}
+    for bi, t in new.calls(lambda t: callee(t).endswith("Layout::array")):
+        lay.setdefault(norm_ty(t.get("fn_args")), []).append((bi, poly_of(new.expr_of_operand(t["args"][0]), atom)))
+    views = []
+    for b in facts.bodies_of(M):
+        if not b["path"].lstrip("<").startswith("matrix::"):
+            continue
+        f2 = fn_of(b)
+        for bi, t in f2.calls(lambda t: callee(t).endswith("slice_from_raw_parts_mut")):
+            views.append((f2, bi, norm_ty(t.get("fn_args")), poly_of(f2.expr_of_operand(t["args"][1]), atom)))
+    ctx.floor("raw slab views", len(views), 5)
+    ctx.floor("regions of the slab layout", len(lay), 5)
+    for f2, bi, ty, n in views:
+        key = "matrix|view|%s" % ty
+        if ty not in lay:
+            ctx.violation(key, site(f2, bi), "a [%s] view is carved out of the slab but the layout reserves no region of that element type" % ty)
+            continue
+        if len(lay[ty]) != 1:
+            ctx.fail_closed("several layout regions of element type %s: cannot match the view" % ty)
+            continue
+        ln = lay[ty][0][1]
+        if n.has_opaque() or ln.has_opaque():
+            ctx.fail_closed("extent of the [%s] region not polynomial in haystack_len / needle_len: view %s, layout %s" % (ty, n, ln))
+            continue
+        if n != ln:
+            ctx.violation(key, site(f2, bi), "the [%s] view has %s elements but the layout reserves %s: a slice reference reaching outside the matcher's scratch allocation is formed" % (ty, n, ln))
+        else:
+            ctx.ok(site(f2, bi), "[%s] region: view extent = layout extent = %s" % (ty, n))
+
+
 def rule_view_extents(ctx):
     facts = ctx.facts
     new = get_fn(facts, M, LAYOUT_NEW)
+    if facts.body(M, FIELDS_FROM) is None:
+        _view_extents_by_type(ctx)
+        return
     ffp = get_fn(facts, M, FIELDS_FROM)
     # layout side: the struct literal's *_off fields
     lit = [s for bi, si, s in new.stmts(lambda s: s["k"] == "assign" and s["rv"].get("agg") == "adt" and s["rv"].get("adt", "").endswith("MatrixLayout"))]
@@ -134,9 +193,12 @@ def rule_view_extents(ctx):
 def rule_slab_guards(ctx):
     facts = ctx.facts
     fn = get_fn(facts, M, ALLOC)
-    carve = [(bi, t) for bi, t in fn.calls(lambda t: callee(t) == FIELDS_FROM)]
-    if len(carve) != 1:
-        raise Inconclusive("MatrixSlab::alloc: expected one fieds_from_ptr call")
+    def is_carve(name):
+        # the carve-up: fieds_from_ptr, or -- when it has been dissolved -- the raw views themselves
+        return name == FIELDS_FROM or (facts.body(M, FIELDS_FROM) is None and str(name).endswith("slice_from_raw_parts_mut"))
+    carve = [(bi, t) for bi, t in fn.calls(lambda t: is_carve(callee(t)))]
+    if not carve or (facts.body(M, FIELDS_FROM) is not None and len(carve) != 1):
+        raise Inconclusive("MatrixSlab::alloc: the carve-up of the slab (fieds_from_ptr / raw slice views) not found")
     cb, ct = carve[0]
     consts = {p: facts.const(M, p)["value"] for p in ("matrix::MAX_MATRIX_SIZE", "matrix::MAX_NEEDLE_LEN", "matrix::MAX_HAYSTACK_LEN")}
     # roles (not names): H = len of the slice parameter, N = the usize parameter
@@ -187,7 +249,7 @@ def rule_slab_guards(ctx):
            "needle": "needle_len ≤ MAX_NEEDLE_LEN (keeps DP scores below u16::MAX)", "layout": "layout.size() ≤ size_of::<MatcherData>() (the slab)"}
     # path-sensitive: on every decision path that reaches the carve-up, the conditions taken imply each bound
     # (whatever the spelling: `a > M || ..` early return, `let fits = a <= M && ..`, nested ifs)
-    paths = [(c_, r_, k_) for c_, r_, k_ in decision_paths(fn, with_calls=True) if any(x[0] == FIELDS_FROM for x in k_)]
+    paths = [(c_, r_, k_) for c_, r_, k_ in decision_paths(fn, with_calls=True) if any(is_carve(x[0]) for x in k_)]
     if not paths:
         raise Inconclusive("MatrixSlab::alloc: no decision path reaches fieds_from_ptr")
     missing = {k: 0 for k in need}
